@@ -107,11 +107,11 @@ SPEC = dict(
           "insertion-sort range); optionally after a processor life-cycle history (Start/Finish cycles, Reset + re-declaration as in "
           "CLIInterpreter.LoadInitialFile, the flag set before / in between / after). Compared: priority sequence of the action starts, priorities "
           "in the error report, number of processed child events. "
-          "V: 0..40 rules with ties of mixed outcome; Go reports the started rule NAMES and the model VALIDATES the run (Ecal.Priority.validRun) "
-          "instead of predicting it. "
+          "V: 0..40 rules with ties of mixed outcome; Go reports the started rule NAMES and the model VALIDATES the run (Ecal.Priority.validRun; "
+          "validRun_iff: it accepts exactly the runs of the rule loop under some admissible sort) instead of predicting it. "
           "S: the R rule sets as ECAL sinks run by the interpreter with its default flag: priority attribute incl. equal / negative / fractional "
           "values, the three ways a sink fails (raise, runtime error, top-level return), addEvent; also after life-cycle histories. "
-          "B: RootMonitor driven directly: every sequence of exactly 6 (quick) / 7 (thorough) steps over 3 priorities (heap of at most 3 entries: "
+          "B: RootMonitor driven directly (HighestPriority() after every call, IsActivated() of every monitor at the end): every sequence of exactly 6 (quick) / 7 (thorough) steps over 3 priorities (heap of at most 3 entries: "
           "exercises the counting and the Skip guard, cannot see heap-order defects); random sequences of up to 90 calls over up to 12 priorities "
           "incl. negative and rejected calls; heap-stress sequences (8..30 distinct priorities active at once, then 40..160 random finishes and "
           "activations). HighestPriority() after every call. "
@@ -141,8 +141,10 @@ SPEC = dict(
         "Finish by the worker that ran it); this linearisation argument is not a Lean theorem",
         "go/ast fact extractor go/cmd/harness/c10tool.go (writers of failOnFirstError, lock discipline, the two repaired guards); values it "
         "cannot classify are 'unknown'/'other' and are left to the correspondence",
-        "the cascade model runs ONE worker on ONE root monitor; runs on several workers are tied through schedule-independent observables "
-        "(started sets, error reports, the HighestPriority oracle) and the dequeue traces",
+        "the cascade model (ProcessEvent composed with the queue) runs ONE worker on ONE root monitor; for several workers the QUEUE clause is proved "
+        "for every interleaving of atomic Push/Pop calls on any roots (ReachableTQ, several_workers_pop_is_min) and accepted_trace_pops_are_min says "
+        "what the replay of a recorded trace establishes; the other observables of runs on several workers are schedule-independent (started "
+        "sets, error reports, the HighestPriority oracle)",
     ],
     assumptions=[
         "priority numbers of child monitors are >= 0 (documented domain, '0 is the highest'). Declared deviation for negative numbers: "
@@ -166,7 +168,8 @@ META = dict(
     level_text=("Proof: (a) for every admissible (non-stable) priority sort the started rules are a prefix of the sorted list, hence ascending; ties "
                 "may run in any order. (b) every pop returns the least (clamped priority, insertion number), nothing left in a reachable queue "
                 "should have gone first, and the container/heap representation implements this in every reachable state (Push keeps, Pop uses "
-                "the heap order). (c) for every accepted SEQUENTIAL sequence of NewChildMonitor/Activate/Skip/Finish calls the heap root equals "
+                "the heap order); the same for a TaskQueue shared by any number of workers under any interleaving of atomic pushes and pops, "
+                "and an accepted trace means every recorded pop was the least of its root. (c) for every accepted SEQUENTIAL sequence of NewChildMonitor/Activate/Skip/Finish calls the heap root equals "
                 "the least priority of the monitors activated by a triggering event and not finished (heapify, sift-up, RemoveFirst+Init "
                 "proved); concurrent use is covered by the extracted lock discipline, not by an interleaving model. (d) with fail-on-first-error "
                 "exactly the prefix through the first failing rule runs and exactly that rule is reported; composed with the queue in the "
